@@ -172,8 +172,10 @@ class WebSocketWriter:
 
     def _get_compressor(self, compress: int | None) -> ZLibCompressor:
         """Get or create a compressor object for the given compression level."""
-        if compress:
-            # Do not set self._compress if compressing is for this frame
+        if compress and (self.notakeover or not self.compress):
+            # Do not set self._compress if compressing is for this frame.
+            # With context takeover the peer inflates every message with one
+            # window, so all of them have to go through the shared context.
             return ZLibCompressor(
                 level=ZLibBackend.Z_BEST_SPEED,
                 wbits=-compress,
